@@ -209,8 +209,10 @@ class CompositeMoveTo(FnContract):
         P.check(qn + "/ensures:every-child-moved-once", sorted(moved) == list(range(1, cfg['arity'] + 1)))
         P.check(qn + "/ensures:children-moved-to-the-requested-position",
                 all(len(e[2]) == 2 and e[2][0] is st.x and e[2][1] is st.y for e in ev if e[0] == 'move'))
-        P.check(qn + "/ensures:own-cache-invalidated-after-the-last-move",
-                kinds.count('clear') >= 1 and kinds[-1] == 'clear' and ev[-1][1] is st.me.fields['to_mask'])
+        # nothing can evaluate the composite between the moves and the return, so clearing before, between or after the moves
+        # leaves the cache empty at exit all the same: only "its own memoised to_mask was invalidated" is demanded
+        P.check(qn + "/ensures:own-cache-invalidated",
+                any(e[0] == 'clear' and e[1] is st.me.fields['to_mask'] for e in ev))
 
 
 CONTRACTS = [ClearCache(), ClearAll(), UpdateComponents(), CompositeMoveTo()]
